@@ -14,11 +14,32 @@ import common as C
 BOOM = "backend boom é #%d"
 
 
+_MAXSIZE = []
+
+
 def _real_queue_maxsize():
-    from lemoncheesecake import events as E
-    em = E.AsyncEventManager.load()
-    with em.handle_events():
-        return int(getattr(em._queue, "maxsize", 0) or 0)
+    """the bound of the queue the REAL `handle_events` creates (0 = unbounded); read once per process"""
+    if not _MAXSIZE:
+        from lemoncheesecake import events as E
+        em = E.AsyncEventManager.load()
+        with em.handle_events():
+            _MAXSIZE.append(int(getattr(em._queue, "maxsize", 0) or 0))
+    return _MAXSIZE[0]
+
+
+# the largest extracted bound the stream still tries to overflow (events are cheap: ~10 µs each)
+MAX_OVERFLOWED_BOUND = 200000
+
+
+def resolved_n(case, maxsize):
+    """`over` = k: the case asks for MORE events after the first handler failure than the queue can hold, whatever
+    the extracted bound is: at least bound + k events are fired after the first failing one (nothing consumes them).
+    On an unbounded queue (bound 0) the case is its own `n`."""
+    n, fails = case["n"], sorted(case["fails"])
+    k = case.get("over")
+    if k and fails and 0 < maxsize <= MAX_OVERFLOWED_BOUND:
+        n = max(n, fails[0] + 1 + maxsize + k)
+    return n
 
 
 def em_table():
@@ -35,10 +56,16 @@ class EMStream(C.Stream):
     thorough_seconds = 120
     chunk = 20
     # a long tail of events after the failure (nobody consumes them any more), from several producers
+    hang_signature = "C11/event-manager-hang"
+    only_termination = False        # the C01 registration judges termination only (the rest is C11's statement)
     corpus = [{"n": 2600, "fails": [3], "producers": 2, "sched": []},
+              # more events after the failure than ANY finite bound the real queue has (resolved against the extracted bound)
+              {"n": 12, "fails": [3], "producers": 1, "sched": [], "over": 1},
+              {"n": 30, "fails": [0], "producers": 3, "sched": [1, 1, 1], "over": 7},
               {"n": 1200, "fails": [0, 700], "producers": 3, "sched": []},
               {"n": 40, "fails": [], "producers": 1, "sched": [1] * 40}]
-    watchdog = 5.0
+    watchdog = 20.0         # whole case
+    stall = 1.5             # no event fired / handled for that long while a call is pending = blocked
 
     def gen(self, rng, i):
         n = rng.choice([0, 1, 2, 5, 17, 40, 120, 400, 1500, 3000])
@@ -48,11 +75,15 @@ class EMStream(C.Stream):
             fails[0] = rng.randrange(min(n, 8))     # an early failure: many events after it
             fails = sorted(set(fails))
         sched = [rng.choice([0, 0, 1, 2]) for _ in range(min(n, 64))]     # model-side interleaving of the handler thread
-        return {"n": n, "fails": fails, "producers": rng.choice([1, 1, 2, 3]), "sched": sched}
+        case = {"n": n, "fails": fails, "producers": rng.choice([1, 1, 2, 3]), "sched": sched}
+        if fails and rng.random() < 0.4:
+            case["over"] = rng.choice([1, 1, 2, 5, 50])      # overflow whatever bound the real queue has
+        return case
 
     def impl(self, case):
         from lemoncheesecake import events as E
-        n, fails = case["n"], set(case["fails"])
+        fails = set(case["fails"])
+        n = resolved_n(case, _real_queue_maxsize())
         em = E.AsyncEventManager.load()
         handled = []
 
@@ -61,7 +92,7 @@ class EMStream(C.Stream):
             if event.idx in fails:
                 raise RuntimeError(BOOM % event.idx)
         em.subscribe_to_event(E.TestSessionSetupStartEvent, handler)
-        state = {"fired": 0, "closed": False, "maxsize": None, "error": None}
+        state = {"fired": 0, "closed": False, "maxsize": None, "error": None, "in_fire": {}, "closing": False}
         turn = threading.Condition()
         nprod = case["producers"]
 
@@ -76,7 +107,9 @@ class EMStream(C.Stream):
                     i = state["fired"]
                 ev = E.TestSessionSetupStartEvent()
                 ev.idx = i
+                state["in_fire"][p] = i
                 em.fire(ev)                     # may block forever if the queue is bounded: the watchdog sees it
+                state["in_fire"].pop(p, None)
                 with turn:
                     state["fired"] = i + 1
                     turn.notify_all()
@@ -90,32 +123,53 @@ class EMStream(C.Stream):
                         t.start()
                     for t in ths:
                         t.join()
+                    state["closing"] = True
                 state["closed"] = True
             except BaseException as e:      # classified, not propagated
                 state["error"] = "%s: %s" % (type(e).__name__, e)
         th = threading.Thread(target=body, daemon=True)
         t0 = time.time()
         th.start()
-        th.join(self.watchdog)
+        # the calls under observation run in helper threads: a blocked `fire` / exit is OBSERVED (no progress for
+        # `stall` seconds while the call is pending), never suffered
+        last, last_t = None, time.time()
+        while th.is_alive() and time.time() - t0 < self.watchdog:
+            th.join(0.05)
+            prog = (state["fired"], len(handled), state["closing"])
+            if prog != last:
+                last, last_t = prog, time.time()
+            elif time.time() - last_t > self.stall:
+                break
         hang = th.is_alive()
+        blocked_in = None
+        if hang:
+            blocked_in = "fire" if state["in_fire"] else "close" if state["closing"] else "other"
         exc, text = em.get_pending_failure()
         pending = None
         if exc is not None:
             for i in sorted(fails):
                 if str(exc) == BOOM % i:
                     pending = i
-        return {"hang": hang, "fired": state["fired"], "closed": state["closed"], "error": state["error"],
+        return {"hang": hang, "blocked_in": blocked_in, "blocked_fire": sorted(state["in_fire"].values())[:1] if hang else [],
+                "n": n, "fired": state["fired"], "closed": state["closed"], "error": state["error"],
                 "handled": list(handled), "pending": pending, "pending_raw": None if exc is None else str(exc),
                 "text_ok": exc is None or (pending is not None and (BOOM % pending) in (text or "")),
                 "maxsize": state["maxsize"], "wall": round(time.time() - t0, 2)}
 
     def oracle(self, case, obs):
         out = []
-        n, fails = case["n"], sorted(case["fails"])
+        n, fails = obs.get("n", case["n"]), sorted(case["fails"])
         if obs["hang"] or not obs["closed"]:
-            out.append(C.Failure("C11/event-manager-hang",
-                                 "%d of %d events fired, handle_events exited: %s, after %.1f s (first failing event: %s)"
-                                 % (obs["fired"], n, obs["closed"], obs["wall"], fails[:1])))
+            out.append(C.Failure(self.hang_signature % {"where": obs.get("blocked_in") or "exit"} if "%" in self.hang_signature
+                                 else self.hang_signature,
+                                 "%d of %d events fired, blocked in: %s%s, handle_events exited: %s, after %.1f s (first failing "
+                                 "event: %s, queue bound: %s)"
+                                 % (obs["fired"], n, obs.get("blocked_in"), " of event %s" % obs["blocked_fire"][0] if obs.get("blocked_fire") else "",
+                                    obs["closed"], obs["wall"], fails[:1], obs["maxsize"])))
+            return out
+        if self.only_termination:
+            if obs["error"]:
+                out.append(C.Failure(self.hang_signature.split("/")[0] + "/event-manager-raised", obs["error"]))
             return out
         if obs["error"]:
             out.append(C.Failure("C11/event-manager-raised", obs["error"]))
@@ -134,7 +188,7 @@ class EMStream(C.Stream):
         return out
 
     def request(self, case, obs):
-        return {"cap": obs["maxsize"] or 0, "n": case["n"], "fails": case["fails"], "sched": case["sched"]}
+        return {"cap": obs["maxsize"] or 0, "n": obs.get("n", case["n"]), "fails": case["fails"], "sched": case["sched"]}
 
     def compare(self, case, obs, ans):
         if "error" in ans:
@@ -157,8 +211,11 @@ class EMStream(C.Stream):
         n, fails = case["n"], case["fails"]
         f = ["n=%s" % ("0-5" if n <= 5 else "6-120" if n <= 120 else "121-1000" if n <= 1000 else ">1000"),
              "producers=%d" % case["producers"], "failing=%d" % len(fails)]
+        f.append("queue-bound=%s" % ("unbounded" if not obs.get("maxsize") else "finite"))
+        if case.get("over"):
+            f.append("asks-for-more-than-the-bound")
         if fails:
-            after = n - 1 - fails[0]
+            after = obs.get("n", n) - 1 - fails[0]
             f.append("events-after-failure=%s" % ("0" if after == 0 else "1-100" if after <= 100 else "101-1000" if after <= 1000 else ">1000"))
         return f
 
@@ -169,5 +226,7 @@ class EMStream(C.Stream):
                 yield dict(case, n=m, fails=[i for i in case["fails"] if i < m], sched=case["sched"][:m])
         if case["producers"] > 1:
             yield dict(case, producers=1)
+        if case.get("over", 0) > 1:
+            yield dict(case, over=1)
         for i in range(len(case["fails"])):
             yield dict(case, fails=case["fails"][:i] + case["fails"][i + 1:])
